@@ -311,8 +311,16 @@ func (g *coreGen) stmt(nest int) ref.Stmt {
 			if r.K == "int" && r.I == 0 {
 				r = intLitOf(3)
 			}
+		case "=", "+=", "-=", "*=":
+			r = g.intOperand()
+			if g.chance(15, "int-from-float") {
+				r = g.varOf(pool.Floats, ref.TFloat) // INTEGER op= FLOAT variable (a FLOAT literal is a type error)
+			}
 		default:
 			r = g.intOperand()
+		}
+		if op == "/=" && g.chance(15, "intdiv-by-float") {
+			r = g.varOf(pool.Floats, ref.TFloat)
 		}
 		return ref.Stmt{K: "set", ID: g.id(), Name: pickS(g, pool.Ints, "itarget"), Op: op, E: r}
 	case k == 3: // float
@@ -321,8 +329,31 @@ func (g *coreGen) stmt(nest int) ref.Stmt {
 		if op == "/=" && r.K == "float" && r.F == 0 {
 			r = &ref.Expr{K: "float", T: ref.TFloat, F: 2.5, Lit: "2.5"}
 		}
+		if g.chance(25, "float-from-int") {
+			r = g.intOperand() // FLOAT op= INTEGER
+			if op == "/=" && r.K == "int" && r.I == 0 {
+				r = intLitOf(4)
+			}
+		}
 		return ref.Stmt{K: "set", ID: g.id(), Name: pickS(g, pool.Floats, "ftarget"), Op: op, E: r}
 	case k == 4: // rtime
+		if g.chance(25, "rtime-numeric") {
+			// RTIME op= INTEGER / FLOAT: factor for *= and /=, seconds (variables only) for += and -=
+			op := pickS(g, []string{"*=", "/=", "+=", "-="}, "rtimenumop")
+			var r *ref.Expr
+			switch {
+			case op == "+=" || op == "-=":
+				r = g.varOf(pool.Ints, ref.TInt)
+			case g.chance(30, "rtime-float-factor"):
+				r = g.varOf(pool.Floats, ref.TFloat)
+			default:
+				r = intLitOf(int64(g.n(1, 9, "rtimefactor")))
+				if g.chance(40, "rtime-int-var") {
+					r = g.varOf(pool.Ints, ref.TInt)
+				}
+			}
+			return ref.Stmt{K: "set", ID: g.id(), Name: pickS(g, pool.RTimes, "rtarget"), Op: op, E: r}
+		}
 		return ref.Stmt{K: "set", ID: g.id(), Name: pickS(g, pool.RTimes, "rtarget"), Op: pickS(g, []string{"=", "+=", "-="}, "rtimeop"), E: g.rtimeOperand()}
 	case k <= 6: // string local
 		return ref.Stmt{K: "set", ID: g.id(), Name: pickS(g, pool.Strs, "starget"), Op: pickS(g, []string{"=", "=", "+="}, "strop"), E: g.strExpr(2)}
